@@ -16,7 +16,7 @@ func init() {
 		Level: "exploration",
 		Rule: "a test file is injected into slog/internal/times with `go test -overlay` (the repository is untouched) and runs inside the package: formatter: every duration of a boundary set (all unit boundaries ns..d x {1,2,9,10,23,24,25,59,60,99,100,999,1000,106751,...} +-1, powers of ten +-1, MinInt64, MinInt64+1, MaxInt64, 400 values in the 33-character region around -106751d23h47m16s854ms775us807ns) " +
 			"plus N random int64 values (uniform, log-uniform, multi-field, unit multiples; quick N=1 000 000, thorough 100 000 000), both styles: no panic and ParseDuration(text) == d. parser: M strings (grammar-generated with all units incl. d, overflow-edge numbers, long fractions; mutated valid texts; alphabet soup; arbitrary bytes; quick M=1 000 000, thorough 50 000 000): " +
-			"accepted by time.ParseDuration => accepted with the same value; rejected by it and no 'd' in the text => rejected; texts with 'd': every day term is rewritten as the exactly equal hour term and time.ParseDuration of that text is the reference (value within +-1 ns per fractional term; a decision may differ only when the exact big-integer value lies on the overflow boundary). non-trivial = every judged value/string; distinct = by value / string hash (thorough: a 1/64 sample of the hashes is kept, so the count is a lower bound)",
+			"accepted by time.ParseDuration => accepted with the same value; rejected by it and no 'd' in the text => rejected; texts with 'd': every day term is rewritten as the exactly equal hour term and time.ParseDuration of that text is the reference (value within +-1 ns per fractional term; a decision may differ only when the exact big-integer value lies on the overflow boundary). Round 12/13: decimal digits of other scripts next to ASCII digits in every position; the process's own time zone is not UTC; a burst of sixteen goroutines each formatting a handful of durations of its own over and over (every text reads back as its duration), then one goroutine asks for all of them again. non-trivial = every judged value/string; distinct = by value / string hash (thorough: a 1/64 sample of the hashes is kept, so the count is a lower bound)",
 		Assumptions: []string{"time.ParseDuration of go1.23.5 as the reference parser", "a text containing the letter d anywhere is judged by the day-unit evaluator instead of by time.ParseDuration's verdict"},
 		Floors:      map[string]int64{"durations": 1000, "strings": 1000, "strings_accepted_by_time.ParseDuration": 100, "strings_rejected_by_time.ParseDuration": 100, "day_unit_values_confirmed": 100, "texts_of_32_or_more_bytes": 10},
 		Custom:      c20run,
